@@ -82,11 +82,42 @@ def discover_caches() -> list[tuple[str, str, Any]]:
     return found
 
 
-def clear_all_caches() -> int:
+_MEMO_DICTS: list[tuple[str, str, dict[Any, Any]]] | None = None
+
+
+def discover_memo_dicts() -> list[tuple[str, str, dict[Any, Any]]]:
+    """Hand-rolled memos: module-level dicts of btclib that are EMPTY once everything is imported and
+    that calls fill later (today: ecc.ellswift._CONSTANTS). Clearing one between runs is a cold start;
+    they are never cleared while simulated threads run (a check-then-act on a memo that only grows is
+    safe, and a concurrent clear would break code that holds)."""
+    global _MEMO_DICTS  # noqa: PLW0603
+    if _MEMO_DICTS is not None:
+        return _MEMO_DICTS
+    discover_caches()  # imports everything first
+    found = []
+    for modname in sorted(sys.modules):
+        if not modname.startswith("btclib."):
+            continue
+        mod = sys.modules[modname]
+        for name in sorted(vars(mod)):
+            obj = vars(mod)[name]
+            if type(obj) is dict and not obj and name.startswith("_") and name.isupper():
+                found.append((modname, name, obj))
+    _MEMO_DICTS = found
+    return found
+
+
+def clear_all_caches(*, memos: bool = False) -> int:
+    """Clear every lru_cache (safe at any instant: lru_cache is internally consistent).
+    ``memos=True`` also clears the hand-rolled memo dicts: between runs only."""
     n = 0
     for _, _, obj in discover_caches():
         obj.cache_clear()
         n += 1
+    if memos:
+        for _, _, d in discover_memo_dicts():
+            d.clear()
+            n += 1
     return n
 
 
@@ -135,7 +166,7 @@ class ShrunkCaches:
 
 def reset_process_state(serving: bool | None = None) -> None:
     """What every run starts from: cold caches, the switch where asked."""
-    clear_all_caches()
+    clear_all_caches(memos=True)
     set_backend(_INITIAL_SERVING if serving is None else serving)
     # lazily-built module globals that are memo fields in disguise
     try:
